@@ -63,6 +63,18 @@ def load_known_findings():
     return json.load(open(p)).get("findings", [])
 
 
+def write_atomic(path, text):
+    """the file never exists half-written (another check of the same tree may be reading it); unchanged content is left alone"""
+    try:
+        if os.path.exists(path) and open(path).read() == text:
+            return
+    except Exception:
+        pass
+    tmp = "%s.%d.tmp" % (path, os.getpid())
+    open(tmp, "w").write(text)
+    os.replace(tmp, path)
+
+
 def run_verus(gen_path, rlimit, threads=16, extra=(), multiple_errors="8"):
     cmd = ["verus", gen_path, "--output-json", "--time", "--multiple-errors", multiple_errors, "--error-format=json",
            "--rlimit", str(rlimit), "--num-threads", str(threads), "--triggers-mode", "silent"] + list(extra)
@@ -225,15 +237,23 @@ class Session:
         self.key = hashlib.sha256((self.gen + verus_version()).encode()).hexdigest()[:24]
         self.dir = os.path.join(CACHE, self.key)
         os.makedirs(self.dir, exist_ok=True)
-        # prune old cache entries (keep the 16 newest)
         try:
-            ents = sorted((os.path.getmtime(os.path.join(CACHE, d)), d) for d in os.listdir(CACHE))
-            for _, d in ents[:-16]:
-                shutil.rmtree(os.path.join(CACHE, d), ignore_errors=True)
+            os.utime(self.dir, None)        # in use now: a concurrent run must not prune it
         except Exception:
             pass
+        # prune old cache entries (keep the 16 newest, and never one that was used in the last half hour)
+        try:
+            now = time.time()
+            ents = sorted((os.path.getmtime(os.path.join(CACHE, d)), d) for d in os.listdir(CACHE) if os.path.isdir(os.path.join(CACHE, d))
+                          and d != "evidence_other_trees")
+            for mt, d in ents[:-16]:
+                if now - mt > 1800:
+                    shutil.rmtree(os.path.join(CACHE, d), ignore_errors=True)
+        except Exception:
+            pass
+        os.makedirs(self.dir, exist_ok=True)
         self.gen_path = os.path.join(self.dir, "gen.rs")
-        open(self.gen_path, "w").write(self.gen)
+        write_atomic(self.gen_path, self.gen)
 
     def canary_text(self):
         """variant with `assert(false)` at the start of every contracted body and loop body"""
@@ -291,18 +311,37 @@ class Session:
         return "\n".join(out)
 
     def cached(self, name, fn):
+        """result of an expensive run, shared between checks of the same tree; safe when several checks run at the same time: one
+        process computes under a file lock, the others wait and read its result; files appear atomically (write + rename)"""
+        import fcntl
         p = os.path.join(self.dir, name + ".json")
-        if self.use_cache and os.path.exists(p):
+
+        def load():
+            if self.use_cache and os.path.exists(p):
+                try:
+                    r = json.load(open(p))
+                    r["cache_hit"] = True
+                    return r
+                except Exception:
+                    return None
+            return None
+        r = load()
+        if r is not None:
+            return r
+        with open(p + ".lock", "w") as lk:
+            fcntl.flock(lk, fcntl.LOCK_EX)
             try:
-                r = json.load(open(p))
-                r["cache_hit"] = True
+                r = load()
+                if r is not None:
+                    return r
+                r = fn()
+                r["cache_hit"] = False
+                tmp = "%s.%d.tmp" % (p, os.getpid())
+                json.dump(r, open(tmp, "w"))
+                os.replace(tmp, p)
                 return r
-            except Exception:
-                pass
-        r = fn()
-        r["cache_hit"] = False
-        json.dump(r, open(p, "w"))
-        return r
+            finally:
+                fcntl.flock(lk, fcntl.LOCK_UN)
 
     def verify(self):
         rl = 60 if self.tier == "quick" else 150
@@ -364,7 +403,7 @@ class Session:
             self.n_canaries = 0
             return
         cpath = os.path.join(self.dir, "gen_canary.rs")
-        open(cpath, "w").write(self.canary_text())
+        write_atomic(cpath, self.canary_text())
         cres = self.cached("canary", lambda: run_verus(cpath, 10))
         self.canary = cres
         hit = set()
